@@ -28,10 +28,22 @@ def merge(outs):
     return tot
 
 
+def thorough_recheck(tier, modules, audit):
+    """thorough tier: the compiled .olean files of the property's modules (and everything they import) are
+    re-checked by leanchecker, the toolchain's independent kernel re-checker"""
+    if tier != "thorough":
+        return
+    ok, tail = fw.leanchecker(modules)
+    audit["checker_cmd"] += " ; lake env leanchecker " + " ".join(modules)
+    if not ok:
+        raise fw.Broken("leanchecker rejected the compiled modules: " + tail[-400:])
+
+
 def run_types(prop, tier, seed, t0):
     modules = {"C12": ["Ovldverif.Props.C12", "Ovldverif.Props.C12Mirror", "Ovldverif.Lemmas.Fuel"], "C13": ["Ovldverif.Props.C13", "Ovldverif.Lemmas.Fuel"]}[prop]
     modules = [m for m in modules if os.path.exists(os.path.join(fw.LEAN_DIR, m.replace(".", "/") + ".lean")) and m in open(os.path.join(fw.LEAN_DIR, "Ovldverif.lean")).read()]
     audit = fw.lean_audit(modules)
+    thorough_recheck(tier, modules, audit)
     nb, per = (16, 12) if tier == "quick" else (64, 60)
     payloads = [(seed * 100003 + i, per, 6, 3, prop) for i in range(nb)]
     outs = fw.parallel("check_types", "worker", payloads)
@@ -121,10 +133,11 @@ STREAMS = {
     "levels_rich": ("corr_c", "worker", lambda seed, n: (seed + 43, n, False), "C"),
     "rewrite": ("check_rewrite", "worker", lambda seed, n: (seed + 47, n, {}), "H"),
     "rewrite_struct": ("corr_h", "worker", lambda seed, n: (seed + 53, 6 * n, {}), "H"),
-    "build": ("check_build", "worker", lambda seed, n: (seed + 59, 2 * n, {}), "I"),
+    "build": ("check_build", "worker", lambda seed, n: (seed + 59, 2 * n, {"nmax": 400, "sweep": n > 100}), "I"),
     "annotations": ("corr_b", "worker", lambda seed, n: (seed + 67, n, {}), "B"),
     "fn_types": ("check_fn", "worker", lambda seed, n: (seed + 71, n, {"static_only": True, "type_args": True, "simple_sigs": True}), "F"),
-    "conc": ("check_conc", "worker", lambda seed, n: (seed + 73, max(2, n // 8), {}), "K"),
+    # thorough (n = 250): every line of thread 0 is a pre-emption point
+    "conc": ("check_conc", "worker", lambda seed, n: (seed + 73, max(2, min(8, n // 8)), {"exhaustive": n > 100}), "K"),
     "classes": ("corr_j", "worker", lambda seed, n: (seed + 61, n, {}), "J"),
     "graph": ("check_graph", "worker", lambda seed, n: (seed + 19, n, {}), "G"),
     "graph_deep": ("check_graph", "worker", lambda seed, n: (seed + 23, n, {"nnodes": 6, "recurse_bias": 0.6}), "G"),
@@ -136,6 +149,7 @@ def run_generic(prop, tier, seed, t0):
     root = open(os.path.join(fw.LEAN_DIR, "Ovldverif.lean")).read()
     modules = [m for m in spec["modules"] + ["Ovldverif.Lemmas.Fuel"] if m in root]
     audit = fw.lean_audit(modules)
+    thorough_recheck(tier, modules, audit)
     nb, per = (16, 50) if tier == "quick" else (64, 250)
     outs = []
     for st in spec["streams"]:
